@@ -313,6 +313,12 @@ pub fn run_batch(property: &str, tier: Tier, base_seed: u64, classes: &[ClassSpe
                     let seed = job_seed(base_seed, property, ci, i);
                     let mut plan = c.scenario.gen(property, c.class, seed, i, tier);
                     finish_plan(c, &mut plan);
+                    // should the process die under this run, the fatal-signal handler reports it with this replay file
+                    {
+                        let v = Violation { property: property.to_string(), invariant: "process-abort".into(), detail: "the process was killed while this run was executing (abort, double panic, or a fatal fault inside a library call)".into(), at: 0 };
+                        let rf = ReplayFile { plan: plan.clone(), expect: v, profile: env.profile.to_string(), note: format!("written by the fatal-signal handler; class {}", c.class), prelude: vec![], reproducibility: "process-abort".into() };
+                        kernel::rec::set_inflight(Some((property.to_string(), format!("{}/{}-{}-abort.json", replay_dir(), property, seed), serde_json::to_string_pretty(&rf).unwrap_or_default())));
+                    }
                     let rec = match std::panic::catch_unwind(std::panic::AssertUnwindSafe(|| execute(c.scenario, &plan, env))) {
                         Ok(r) => r,
                         Err(_) => {
@@ -323,6 +329,7 @@ pub fn run_batch(property: &str, tier: Tier, base_seed: u64, classes: &[ClassSpe
                             std::process::exit(2);
                         }
                     };
+                    kernel::rec::set_inflight(None);
                     current[t].store(u64::MAX, Ordering::Relaxed);
                     let keep_plan = !rec.violations.is_empty() || i < 2;
                     let history = if rec.violations.is_empty() { vec![] } else { executed.clone() };
